@@ -36,7 +36,7 @@ Section worker.
 
   (** what C07 can promise for a worker: if BOTH the ConfigState and the proxy
       reject, and the proxy is atomic (a rejected action leaves the live state
-      alone — true of update_config since fixes ac9f350 / d6b96bd, checked on the
+      alone — true of update_config since fixes 36e2393 / 127810a, checked on the
       real listeners on every run), the worker is exactly as before *)
   Theorem worker_no_trace (w : worker) r w' :
     (forall k, atomic (steps k) = true) -> Inv (w_view w) ->
